@@ -826,6 +826,50 @@ def P_seqLegacy (m : SeqMon) (n : Bytes) (out : CallOut) : Prop :=
 /-- *Refused ⇒ untouched*: a call that fails reached no tool handler. -/
 def P_seqQuiet (out : CallOut) : Prop := ∀ code, out ≠ .notOk code false
 
+/-- *list_changed beats the cache*: on a 2026-07-28 session, once the client has handled a list_changed that followed the
+server's last change of its tools, a `ListTools` answered from the client's cache (the server was not asked) returns the
+server's current page — the definitions `CallTool` takes the `Mcp-Param-*` mirror from are the server's. -/
+def P_seqList (m : SeqMon) (k : Bytes) (hit : Bool) (tools : Tools) : Prop :=
+  m.newProto = true → m.fresh = true → hit = true → tools = (serverPage m.server m.pageSize k).1
+
+theorem sound_staleHit {m : SeqMon} {k : Bytes} {hit : Bool} {tools : Tools} {cl : Clause}
+    (h : staleHit m k hit tools = some cl) : cl = .seqStaleList ∧ ¬ P_seqList m k hit tools := by
+  unfold staleHit at h
+  split at h
+  · rename_i hcnd
+    simp only [Bool.and_eq_true, bne_iff_ne, ne_eq] at hcnd
+    obtain ⟨⟨⟨hp, hf⟩, hh⟩, hne⟩ := hcnd
+    cases h
+    exact ⟨rfl, fun hP => hne (hP hp hf hh)⟩
+  · cases h
+
+/-- A clause on a `list` / `listSend` / `listRecv` record is `seqStaleList`, and the record refutes `P_seqList`. -/
+theorem sound_seq_list {c : B64} {m : SeqMon} {k : Bytes} {hit : Bool} {tools : Tools} {next : Bytes} {cl : Clause} :
+    ((seqMonStep c m (.list k) (.listed hit tools next)).2 = some cl ∨
+     (seqMonStep c m (.listSend k) (.listed hit tools next)).2 = some cl) →
+    cl = .seqStaleList ∧ ¬ P_seqList m k hit tools := by
+  rintro (h | h)
+  · simp only [seqMonStep] at h
+    split at h
+    · cases h
+    · exact sound_staleHit h
+  · simp only [seqMonStep] at h
+    exact sound_staleHit h
+
+/-- The arrival of a response in flight raises no clause (what it teaches the client is judged at the later records). -/
+theorem seq_recv_no_clause {c : B64} {m : SeqMon} (o : SeqObs) : (seqMonStep c m .listRecv o).2 = none := by
+  cases o <;> simp only [seqMonStep]
+  cases m.pend with
+  | none => rfl
+  | some x =>
+    obtain ⟨ch, nt⟩ := x
+    simp only []
+    split
+    · rfl
+    · split
+      · rfl
+      · split <;> rfl
+
 theorem sound_seq_look {c : B64} {m : SeqMon} {n : Bytes} {defs : List (Option Props)} {cl : Clause}
     (h : (seqMonStep c m (.look n) (.looked defs)).2 = some cl) :
     (cl = .seqStaleLook ∨ cl = .seqLostLook) ∧ ¬ P_seqLook m n defs := by
@@ -959,6 +1003,20 @@ example : (seqMonStep idCodec wMon (.call wA wArgs) (.called [] (.notOk (some (-
     (seqMonStep idCodec wMon (.call wA wArgs) (.called wHdrs (.notOk (some (-32020)) true))).2 = some .seqRefusedExact ∧
     (seqMonStep idCodec { wMon with newProto := false } (.call wA wArgs) (.called [] (.notOk none true))).2 = some .seqLegacy ∧
     (seqMonStep idCodec { wMon with listed := [] } (.call wA wArgs) (.called [] (.notOk none false))).2 = some .e2eReached := by decide
+/-- Seeded change C12-m13 as the observer sees it: tool `a` listed (response in flight), re-registered with the annotation,
+list_changed handled, the overtaken response arrives; the next `ListTools` is answered from the cache with the OLD page. -/
+def wMonFresh : SeqMon :=
+  { newProto := true, server := [(wA, wProps)], listed := [], seen := [], pageSize := 2, fresh := true }
+example : (seqMonStep idCodec wMonFresh (.list []) (.listed true [(wA, wPlain)] [])).2 = some .seqStaleList ∧
+    (seqMonStep idCodec wMonFresh (.listSend []) (.listed true [(wA, wPlain)] [])).2 = some .seqStaleList ∧
+    (seqMonStep idCodec wMonFresh (.list []) (.listed true [(wA, wProps)] [])).2 = none ∧
+    (seqMonStep idCodec wMonFresh (.list []) (.listed false [(wA, wProps)] [])).2 = none ∧
+    (seqMonStep idCodec { wMonFresh with fresh := false } (.list []) (.listed true [(wA, wPlain)] [])).2 = none := by decide
+/-- … and what the observer learns from a response in flight: nothing if a list_changed was handled since the request,
+nothing (and it forgets) if the table changed since, the names otherwise. -/
+example : (seqMonStep idCodec { wMon with listed := [], pend := some (true, true) } .listRecv (.listed false [(wA, wPlain)] [])).1.listed = [] ∧
+    (seqMonStep idCodec { wMon with pend := some (true, false) } .listRecv (.listed false [(wA, wPlain)] [])).1.listed = [] ∧
+    (seqMonStep idCodec { wMon with listed := [], pend := some (false, false) } .listRecv (.listed false [(wA, wProps)] [])).1.listed = [wA] := by decide
 end witnesses
 
 end Preflight
